@@ -3,6 +3,7 @@ The minimizer module provides functionality for the minimization process of
 a function.
 """
 import abc
+import inspect
 import logging
 import scipy.optimize
 
@@ -360,6 +361,11 @@ class LBFGSMinimizerImpl(
 
         self._fmin_l_bfgs_b = scipy.optimize.fmin_l_bfgs_b
 
+        # The iprint option was removed from scipy's fmin_l_bfgs_b function.
+        # Pass it on only if the installed scipy version still supports it.
+        self._fmin_l_bfgs_b_has_iprint = (
+            'iprint' in inspect.signature(self._fmin_l_bfgs_b).parameters)
+
     def minimize(
             self,
             initials,
@@ -435,7 +441,7 @@ class LBFGSMinimizerImpl(
             kwargs['pgtol'] = self._pgtol
         if 'maxls' not in kwargs:
             kwargs['maxls'] = self._maxls
-        if 'iprint' not in kwargs:
+        if self._fmin_l_bfgs_b_has_iprint and ('iprint' not in kwargs):
             kwargs['iprint'] = self._iprint
 
         func_provides_grads = kwargs.pop('func_provides_grads', True)
